@@ -5,6 +5,16 @@ export GOFLAGS=-mod=mod GOPROXY=off GOSUMDB=off GOTOOLCHAIN=local
 cd "$(dirname "$0")"
 mkdir -p .bin evidence replays
 (cd tools/instrument && go build -o ../../.bin/instrument .)
+# regenerate the forwarding declarations of the shims for this Go version (committed copies are the fallback)
+if (cd tools/genshim && go build -o ../../.bin/genshim .) 2>/dev/null; then
+  for x in "os vos" "sync vsync" "sync/atomic vatomic" "time vtime"; do
+    set -- $x
+    if .bin/genshim -real "$1" -shim "rt/$2" -pkg "$2" > "rt/$2/zz_forward.go.new" 2>/dev/null; then
+      gofmt "rt/$2/zz_forward.go.new" > "rt/$2/zz_forward.go" 2>/dev/null || true
+    fi
+    rm -f "rt/$2/zz_forward.go.new"
+  done
+fi
 # warm the build cache (plain and -race) so that checks start quickly
 SCR="$(mktemp -d /dev/shm/verif-setup.XXXXXX 2>/dev/null || mktemp -d)"
 trap 'rm -rf "$SCR"' EXIT
